@@ -420,6 +420,168 @@ def gen_case(draw, tier="quick"):
             "via": draw(st.sampled_from(["arg", "network"])), "mut": mut}
 
 
+# ---- histories: re-verification of the same transaction object, reorganisations through Headers.connect() ---------
+
+def linked_header(prev_hash32, salt, k, variant, root):
+    return (struct.pack("<I", 1) + prev_hash32 + root + _h(salt, "claimtrie", k, variant) +
+            struct.pack("<III", 1500000000 + 150 * k, 0x1f00ffff, (k * 7 + variant) & 0xffffffff))
+
+
+@st.composite
+def history_case(draw, tier="quick"):
+    n = draw(st.integers(3, 7))
+    ops = []
+    for _ in range(draw(st.integers(2, 10))):
+        kind = draw(st.sampled_from(["verify", "verify", "verify", "reorg", "read"]))
+        if kind == "verify":
+            ops.append({"op": "verify", "h": draw(st.integers(0, 9)), "i": draw(st.integers(0, 8)),
+                        "proof": draw(st.sampled_from(["genuine", "genuine", "bad_branch", "bad_pos", "old_block", "other_height"])),
+                        "reuse": draw(st.booleans()), "via": draw(st.sampled_from(["arg", "network"])),
+                        "a": draw(st.integers(0, 255))})
+        elif kind == "reorg":
+            ops.append({"op": "reorg", "from": draw(st.integers(1, 8)), "len": draw(st.integers(1, 5))})
+        else:
+            ops.append({"op": "read", "h": draw(st.integers(0, 9))})
+    return {"salt": draw(st.integers(0, 2 ** 32)), "n": n,
+            "sizes": [draw(st.sampled_from([1, 2, 3, 4, 5, 7, 8])) for _ in range(12)], "ops": ops}
+
+
+def run_history(case):
+    import lbry.wallet  # noqa: F401
+    from lbry.wallet import Ledger, Database, Transaction
+    from lbry.wallet.header import UnvalidatedHeaders
+
+    class LinkedOnly(UnvalidatedHeaders):
+        genesis_hash = None
+        checkpoints = {}
+
+    out = Out()
+    salt, sizes = case["salt"], case["sizes"]
+    headers = LinkedOnly(":memory:")
+    aio.run(headers.open())
+    ledger = Ledger({"db": Database(":memory:"), "headers": headers})
+    variant = {}      # height -> variant number of the block currently on the chain
+    old_variants = {}  # height -> previous variant (abandoned block)
+
+    def blk(k, v):
+        return block((salt, v), k, sizes[k % len(sizes)])
+
+    def stored():
+        return bytes(headers.io.getbuffer())
+
+    def build(from_h, count, v):
+        buf = stored()
+        prev = M.dsha256(buf[(from_h - 1) * HEADER_SIZE: from_h * HEADER_SIZE]) if from_h > 0 else bytes(32)
+        res = b""
+        for k in range(from_h, from_h + count):
+            hb = linked_header(prev, salt, k, v, blk(k, v)[2])
+            res += hb
+            prev = M.dsha256(hb)
+        return res
+
+    added = aio.run(headers.connect(0, build(0, case["n"], 0)))
+    if added != case["n"]:
+        out.violate("history:harness:initial-chain-not-connected", "%r of %d" % (added, case["n"]))
+        return out
+    for k in range(case["n"]):
+        variant[k] = 0
+    txs = {}
+    nreorg = nreverify = 0
+    for step, op in enumerate(case["ops"]):
+        length = len(stored()) // HEADER_SIZE
+        if op["op"] == "read":
+            h = op["h"] % length
+            try:
+                aio.run(headers.get(h))
+            except Exception as e:
+                out.violate("history:header-get-raises:%s" % type(e).__name__, repr(e)[:200])
+                return out
+        elif op["op"] == "reorg":
+            f = 1 + (op["from"] - 1) % (length - 1) if length > 1 else 1
+            v = step + 1
+            chunk = build(f, op["len"], v)
+            try:
+                added = aio.run(headers.connect(f, chunk))
+            except Exception as e:
+                out.violate("history:connect-raises:%s" % type(e).__name__, repr(e)[:200])
+                return out
+            out.check(added == op["len"], "history:harness:reorg-not-connected", "%r of %d at %d" % (added, op["len"], f))
+            newlen = len(stored()) // HEADER_SIZE
+            for k in list(variant):
+                if k >= f:
+                    old_variants[k] = variant.pop(k)
+            for k in range(f, min(newlen, f + op["len"])):
+                variant[k] = v
+            nreorg += 1
+            out.label("reorg_len_%s" % ("1" if op["len"] == 1 else ">1"))
+        else:
+            h = 1 + op["h"] % (length - 1) if length > 1 else 0
+            if h not in variant:
+                continue
+            v = variant[h]
+            src_v, src_h = v, h
+            if op["proof"] == "old_block" and h in old_variants:
+                src_v = old_variants[h]
+            elif op["proof"] == "other_height":
+                others = [x for x in variant if x != h and x > 0]
+                if others:
+                    src_h = others[op["a"] % len(others)]
+                    src_v = variant[src_h]
+            raws, leaves, root = blk(src_h, src_v)
+            i = op["i"] % len(raws)
+            raw = raws[i][0]
+            branch, pos = M.merkle_branch(leaves, i), i
+            reply = {"merkle": [M.to_wire(x) for x in branch], "pos": pos, "block_height": h}
+            if op["proof"] == "bad_branch":
+                if reply["merkle"]:
+                    e = op["a"] % len(reply["merkle"])
+                    bs = bytearray(bytes.fromhex(reply["merkle"][e]))
+                    bs[op["a"] % 32] ^= 1
+                    reply["merkle"][e] = bs.hex()
+                else:
+                    reply["merkle"] = [M.to_wire(_h(salt, "x", step))]
+            elif op["proof"] == "bad_pos" and branch:
+                lvl = op["a"] % len(branch)
+                if lvl in M.duplicate_levels(len(leaves), i):
+                    lvl = None
+                else:
+                    reply["pos"] = pos ^ (1 << lvl)
+            key = (src_v, src_h, i)
+            if op["reuse"] and key in txs:
+                tx = txs[key]
+                nreverify += 1
+                out.label("reverify_same_object")
+            else:
+                tx = Transaction(raw, height=h)
+                txs[key] = tx
+            buf = stored()
+            nst = len(buf) // HEADER_SIZE
+            expected = False
+            if 0 < h < nst:
+                root_stored = buf[h * HEADER_SIZE + 36: h * HEADER_SIZE + 68]
+                expected = M.fold(M.dsha256(raw), [M.from_wire(x) for x in reply["merkle"]], reply["pos"]) == root_stored
+            net = StubNetwork(reply)
+            ledger.network = net
+            try:
+                aio.run(ledger.maybe_verify_transaction(tx, h, dict(reply) if op["via"] == "arg" else None))
+            except Exception as e:
+                if expected:
+                    out.violate("history:genuine-proof-raises:%s" % type(e).__name__, repr(e)[:200])
+                    return out
+            cls = "%s%s%s" % (op["proof"], ":after-reorg" if nreorg else "", ":same-object" if (op["reuse"] and key in txs and tx is txs[key] and nreverify) else "")
+            if expected and tx.is_verified is not True:
+                out.violate("history:consistent-proof-rejected:" + cls, "step %d height %d variant %d" % (step, h, v))
+                return out
+            if not expected and tx.is_verified is True:
+                out.violate("history:verified-with-bad-proof:" + cls, "step %d height %d proof from height %d variant %d" % (step, h, src_h, src_v))
+                return out
+            out.label("proof:" + op["proof"], "expected_%s" % expected)
+    out.nontrivial = bool(nreorg or nreverify)
+    if nreorg:
+        out.label("has_reorg")
+    return out
+
+
 def selftest():
     M.selftest()
     # the raw transactions really are transactions with the reference id
@@ -432,6 +594,8 @@ PARTS = [
     Part("enum", None, run_case, 0, 0, quick_shards=8, thorough_shards=16, enumerate_cases=enum_cases,
          essential=("none", "pos_flip_side", "branch_bitflip", "shorten", "lengthen", "side_neutral",
                     "side_neutral_dup", "odd_level_on_path", "via_arg", "via_network", "ntx_1")),
+    Part("history", history_case, run_history, 400, 6000, quick_shards=4, thorough_shards=16,
+         essential=("has_reorg", "reverify_same_object", "proof:old_block", "proof:genuine", "reorg_len_>1")),
     Part("gen", gen_case, run_case, 1500, 30000, quick_shards=4, thorough_shards=16,
          essential=tuple(MUTATIONS) + ("none", "via_arg", "via_network", "odd_level_on_path", "side_neutral",
                                        "side_neutral_dup", "height_out_of_bounds", "hex_case_neutral")),
